@@ -925,3 +925,11 @@ pub unsafe extern "C" fn kill(pid: pid_t, sig: c_int) -> c_int {
 }
 
 static _UNUSED: AtomicI64 = AtomicI64::new(0);
+
+/// Run `f` with this thread temporarily treated as a passthrough (harness) thread.
+pub fn passthrough<R>(f: impl FnOnce() -> R) -> R {
+    let prev = ACTOR.with(|c| c.replace(-1));
+    let r = f();
+    ACTOR.with(|c| c.set(prev));
+    r
+}
